@@ -38,6 +38,18 @@ Check c12_same_value_same_parse_any : forall v w1 w2 r1 r2, enc_response v w1 ->
   parse (w1 ++ r1) = ROk r1 v (nlen w1) /\ parse (w2 ++ r2) = ROk r2 v (nlen w2).
 Print Assumptions c12_same_value_same_parse_any.
 
+(* the relation read the other way round: one wire form denotes one value only, and no spelling is a proper prefix of
+   another (so "equivalent encodings" is an equivalence relation on wire forms whose classes are the values) *)
+Theorem c12_spellings_unambiguous : forall v1 v2 w, enc_response v1 w -> enc_response v2 w -> v1 = v2.
+Proof. exact spellings_unambiguous. Qed.
+Check c12_spellings_unambiguous : forall v1 v2 w, enc_response v1 w -> enc_response v2 w -> v1 = v2.
+Print Assumptions c12_spellings_unambiguous.
+
+Theorem c12_spellings_prefix_free : forall v1 v2 w x, enc_response v1 w -> enc_response v2 (w ++ x) -> x = [] /\ v1 = v2.
+Proof. exact spellings_prefix_free. Qed.
+Check c12_spellings_prefix_free : forall v1 v2 w x, enc_response v1 w -> enc_response v2 (w ++ x) -> x = [] /\ v1 = v2.
+Print Assumptions c12_spellings_prefix_free.
+
 (* the individual freedoms, at the parser functions where they arise *)
 Theorem c12_keyword_case : forall s w d, same_nocase s w = true -> Ok native_call env rk (Leaf (LTagNC s)) d w (VBytes w) any.
 Proof. intros s w d H. apply ok_tag_nc, H. Qed.
